@@ -992,7 +992,7 @@ def run(ck: core.Check):
         ck.broken("correspondence", "C16 programs not observable", f"{type(e).__name__}: {e}")
     finally:
         env.write(saved)
-    ck.cov["programs"] = pstats
+    ck.cov["block_programs"] = pstats
     ck.log("programs done")
 
     for k_, why in sorted(env.unobservable.items(), key=str):
